@@ -125,21 +125,29 @@ InClauses == {"in", "din"}
 IntClauses == {"limit", "offset"}        \* literal_execute is what some dialects use there; expanding is impossible
 \* increasing index sequences = ordered sub-sequences of the clause list
 IncSeqs == {s \in UNION {[1..n -> 1..Len(Clauses)] : n \in 1..MaxOcc} : \A i \in 1..(Len(s) - 1) : s[i] < s[i + 1]}
-BindChoices == [kind : {"plain", "literal"}, n : {0}] \cup [kind : {"expanding", "litexp"}, n : 0..2]
-WellFormed(stmt) ==
-  /\ \A k \in 1..Len(stmt.occ) : LET o == stmt.occ[k] IN
-        o.c = "pct" \/ (IsExp(stmt.binds[o.b]) <=> o.c \in InClauses)
-  /\ \A b \in 1..Len(stmt.binds) : b \in Used(stmt)                                     \* no unused bind
-  /\ \A b \in 1..(Len(stmt.binds) - 1) : FirstOcc(stmt, b) < FirstOcc(stmt, b + 1)       \* binds numbered by first use (symmetry)
-  /\ \E k \in 1..Len(stmt.occ) : stmt.occ[k].c # "pct"
-  /\ (Family = "dml" => \E k \in 1..Len(stmt.occ) : stmt.occ[k].c \in {"values", "set"})
-  /\ ~(\E k, j \in 1..Len(stmt.occ) : stmt.occ[k].c \in {"values", "values2"} /\ stmt.occ[j].c \in {"set", "dwhere", "din"})   \* INSERT or UPDATE
-  /\ (\E k \in 1..Len(stmt.occ) : stmt.occ[k].c = "values2") => (\E k \in 1..Len(stmt.occ) : stmt.occ[k].c = "values")
-Stmts == {st \in UNION {[occ : [1..Len(s) -> [c : {"x"}, b : 0..NBinds]], binds : [1..nb -> BindChoices], cl : {s}] :
-                         s \in IncSeqs, nb \in 1..NBinds} :
-              /\ \A k \in 1..Len(st.occ) : st.occ[k].b \in (IF Clauses[st.cl[k]] = "pct" THEN {0} ELSE 1..Len(st.binds))
-              /\ WellFormed([occ |-> [k \in 1..Len(st.occ) |-> [c |-> Clauses[st.cl[k]], b |-> st.occ[k].b]], binds |-> st.binds])}
-Norm(st) == [occ |-> [k \in 1..Len(st.occ) |-> [c |-> Clauses[st.cl[k]], b |-> st.occ[k].b]], binds |-> st.binds]
+PlainChoices == [kind : {"plain", "literal"}, n : {0}]
+ExpChoices == [kind : {"expanding", "litexp"}, n : 0..2]
+BindChoices == PlainChoices \cup ExpChoices
+MaxOf(S) == IF S = {} THEN 0 ELSE CHOOSE m \in S : \A y \in S : y <= m
+\* which clauses may occur together
+ClauseOK(s) == LET cs == {Clauses[s[k]] : k \in 1..Len(s)} IN
+   /\ cs # {"pct"}
+   /\ (Family = "dml" => /\ cs \cap {"values", "set"} # {}
+                         /\ ~(cs \cap {"values", "values2"} # {} /\ cs \cap {"set", "dwhere", "din"} # {})      \* INSERT or UPDATE
+                         /\ ("values2" \in cs => "values" \in cs))
+\* g assigns a bind to every occurrence: 0 for a literal %, binds numbered in order of first use (no two statements differ by renaming)
+Growth(s, g) == \A k \in 1..Len(s) :
+   IF Clauses[s[k]] = "pct" THEN g[k] = 0
+   ELSE g[k] >= 1 /\ g[k] <= 1 + MaxOf({g[j] : j \in 1..(k - 1)})
+NB(g) == MaxOf({g[k] : k \in DOMAIN g})
+\* an expanding bind lives in IN clauses only, and only expanding binds do
+Options(s, g, b) == LET ks == {k \in 1..Len(s) : g[k] = b} IN
+   IF \A k \in ks : Clauses[s[k]] \in InClauses THEN ExpChoices
+   ELSE IF \A k \in ks : Clauses[s[k]] \notin InClauses THEN PlainChoices ELSE {}
+StmtsOf(s) == UNION {{[cl |-> s, g |-> g, binds |-> bs] : bs \in {f \in [1..NB(g) -> BindChoices] : \A b \in 1..NB(g) : f[b] \in Options(s, g, b)}} :
+                     g \in {h \in [1..Len(s) -> 0..NBinds] : Growth(s, h)}}
+Stmts == UNION {StmtsOf(s) : s \in {q \in IncSeqs : ClauseOK(q)}}
+Norm(st) == [occ |-> [k \in 1..Len(st.cl) |-> [c |-> Clauses[st.cl[k]], b |-> st.g[k]]], binds |-> st.binds]
 
 \* ================================================================ names mode
 \* SQLCompiler._bind_translate_chars
